@@ -83,6 +83,33 @@ CHECKS.update({
         design="5/C20"),
 })
 
+CHECKS.update({
+    "C09": dict(
+        engine="tgv-lsp",
+        technique=FORM_E + " through the real server: every location in every response and publication is compared with the analysed span converted by an independent reference position mapper",
+        text="All two-file workspaces of the generator (every sequence of root statements x included-file variants x ASCII/non-ASCII x LF/CRLF, with differently-lined prologues so that a wrong line table is visible) are opened in the real server over an in-memory JSON-RPC pipe; definition and references at every identifier of both files, documentSymbol, foldingRange, documentLink, inlayHint and the published diagnostics are compared location by location.",
+        note="span content is taken from the ide-level analysis (judged by other properties); quiescence through hook H3 counters",
+        design="5/C09"),
+    "C10": dict(
+        engine="tgv-lsp",
+        technique=FORM_E + ", fully exhaustive as quantified: all strings up to the length bound over the 9-symbol alphabet x all offsets x all positions, against a reference mapper written from the LSP specification",
+        text="Every string up to the bound over {a, space, LF, CR, 2/3/4-byte characters, FF, U+2028} is converted at every character-boundary offset and at every (line, column) up to one past each line end by the real to_proto/from_proto functions and compared with the reference; round trips must be the identity and nothing may panic.",
+        note="lines beyond the last and columns inside a surrogate pair are not demanded",
+        design="5/C10"),
+    "C11": dict(
+        engine="tgv-lsp",
+        technique=FORM_H + " of the real server: every session up to the depth bound, driven to quiescence, compared with a reference session model",
+        text="Every session of didOpen/didChange messages up to the bound over two documents x four texts (clean, faulty, including the other document, including a faulty on-disk file) is played against the real server; after the last message the latest publication per URI must equal the diagnostics of the final state (empty for files outside it) and versions per URI must not decrease.",
+        note="sequential sessions; schedules are C08's subject",
+        design="5/C11"),
+    "C12": dict(
+        engine="tgv-lsp",
+        technique=FORM_H + " of the real server with editor text differing from disk text, against the reference session model (disk overlaid by open buffers)",
+        text="Every session up to the bound over a root and an included document whose editor texts and on-disk texts declare differently named classes is played against the real server; after every message the latest publications and the documentSymbol response of every open document must be those of the overlay model.",
+        note="file system = directory written by the harness",
+        design="5/C12"),
+})
+
 NOT_YET = {}
 
 def main():
